@@ -278,3 +278,49 @@ pub fn install_panic_hook() {
 pub fn panic_site(msg: &str) -> String {
     msg.rsplit(" @ ").next().unwrap_or("").to_string()
 }
+
+/// Line-number independent form of a panic site: "src/x/y.rs:123" -> "src/x/y.rs:enclosing_fn".
+/// The enclosing function is found by scanning the repository source upwards from the line for the
+/// nearest `fn name`; sites that cannot be resolved (std locations, missing files) are returned as
+/// they are.  Used for known-finding signatures so that unrelated edits that shift line numbers do
+/// not turn a recorded finding into a new one.
+pub fn stable_site(site: &str) -> String {
+    use std::collections::HashMap;
+    use std::sync::Mutex;
+    static CACHE: Mutex<Option<HashMap<String, Option<Vec<String>>>>> = Mutex::new(None);
+    let Some((path, line)) = site.rsplit_once(':') else { return site.to_string() };
+    let Ok(line) = line.parse::<usize>() else { return site.to_string() };
+    if path.starts_with("std:") || path.starts_with("harness:") {
+        return site.to_string();
+    }
+    let mut guard = CACHE.lock().unwrap_or_else(|e| e.into_inner());
+    let cache = guard.get_or_insert_with(HashMap::new);
+    let lines = cache.entry(path.to_string()).or_insert_with(|| {
+        for cand in [format!("/repo/{}", path), format!("/repo/src/{}", path)] {
+            if let Ok(text) = std::fs::read_to_string(&cand) {
+                return Some(text.lines().map(|l| l.to_string()).collect());
+            }
+        }
+        None
+    });
+    let Some(lines) = lines else { return site.to_string() };
+    let mut i = line.min(lines.len());
+    while i > 0 {
+        let l = lines[i - 1].trim_start();
+        // `fn name`, possibly after pub/pub(crate)/const/unsafe/async/extern qualifiers
+        if let Some(pos) = l.find("fn ") {
+            let before = &l[..pos];
+            let quals_only = before.split_whitespace().all(|w| {
+                w.starts_with("pub") || w == "const" || w == "unsafe" || w == "async" || w == "extern" || w.starts_with('"') || w == "default"
+            });
+            if quals_only && !l.starts_with("//") {
+                let name: String = l[pos + 3..].chars().take_while(|c| c.is_alphanumeric() || *c == '_').collect();
+                if !name.is_empty() {
+                    return format!("{}:{}", path, name);
+                }
+            }
+        }
+        i -= 1;
+    }
+    site.to_string()
+}
